@@ -472,6 +472,10 @@ class ArgumentParser(ParserDeprecations, ActionsContainer, ArgumentLinking, argp
         except (TypeError, KeyError) as ex:
             self.error(str(ex), ex)
 
+        finally:
+            # a --print_config request must not outlive the parse_args call that received it
+            vars(self).pop("print_config", None)
+
         self._logger.debug("Parsed command line arguments: %s", args)
         return parsed_cfg
 
